@@ -150,6 +150,7 @@ func (rn *runner) recoverOne(st *state) *simcore.Violation {
 		// transiently in the tree during the call: never surely live, not surely dead either
 		rn.lives[r] = append(rn.lives[r], &life{addStart: t0, dropStart: t0})
 	}
+	rn.noteIntervals(t0, []common.Hash{st.root}, rn.orphanSet())
 	rn.recStarted++
 	rn.mu.Unlock()
 	var err error
